@@ -123,7 +123,21 @@ def _key_is_normalised(c: Ctx, f: Func, key: ast.AST, at: ast.AST, rd: Reaching)
             from ..interproc import actuals, reaching
             acts = actuals(c, f, key.id)
             return bool(acts) and all(_key_is_normalised(c, caller, a, cs.node, reaching(c, caller)) for (caller, a, cs) in acts)
-        return bool(ds) and all(d.kind == "assign" and d.value is not None and _key_is_normalised(c, f, d.value, d.stmt, rd) for d in ds)
+        if not ds:
+            return False
+        for d in ds:
+            if d.kind == "assign" and d.value is not None:
+                if not _key_is_normalised(c, f, d.value, d.stmt, rd):
+                    return False
+            elif d.kind == "unpack":
+                # label, raw, href, ... = definition: the component that flows into the key, wherever it is built
+                from ..interproc import reaching, unpack_sources
+                srcs = unpack_sources(c, f, key.id, d.stmt)
+                if not srcs or not all(_key_is_normalised(c, g, e_, at_, reaching(c, g)) for (g, e_, at_) in srcs):
+                    return False
+            else:
+                return False
+        return True
     return False
 
 
